@@ -16,6 +16,7 @@ import (
 	"io/ioutil"
 	"math"
 	"os"
+	"sync"
 
 	"github.com/practable/relay/verifharness/lib"
 	log "github.com/sirupsen/logrus"
@@ -28,6 +29,10 @@ func main() {
 	}
 	if len(os.Args) > 1 && os.Args[1] == "floodchild" {
 		floodChild()
+		return
+	}
+	if len(os.Args) > 1 && os.Args[1] == "churnchild" {
+		churnChild()
 		return
 	}
 	a := lib.ParseArgs()
@@ -45,6 +50,8 @@ func main() {
 			runF13(res, &cases)
 		case "flood":
 			runFlood(res)
+		case "churn":
+			runChurn(res)
 		case "published":
 			// the published client is observed over a fresh set of histories
 			w := startWorld(res, &cases)
@@ -116,15 +123,51 @@ func main() {
 		w := startWorld(res, &cases)
 		w.startPublished()
 		childRes := lib.NewResult("C14", a.Seed, a.Tier)
+		churnRes := lib.NewResult("C14", a.Seed, a.Tier)
 		childDone := make(chan struct{})
+		churnDone := make(chan struct{})
 		go func() { runF13(childRes, &cases); runFlood(childRes); close(childDone) }()
+		go func() {
+			// two relays churn side by side (the freeze this looks for needs a join or leave to land
+			// between two lock operations of a reporting tick: every tick of every relay is a chance)
+			var cmu sync.Mutex
+			for round := a.Pick(1, 2); round > 0; round-- {
+				var cwg sync.WaitGroup
+				for k := 0; k < 2; k++ {
+					cwg.Add(1)
+					go func() {
+						defer cwg.Done()
+						one := lib.NewResult("C14", a.Seed, a.Tier)
+						runChurn(one)
+						cmu.Lock()
+						defer cmu.Unlock()
+						churnRes.Violations = append(churnRes.Violations, one.Violations...)
+						churnRes.Notes = append(churnRes.Notes, one.Notes...)
+						for k, v := range one.Distribution {
+							churnRes.CountN(k, v)
+						}
+						if one.Extra != nil {
+							churnRes.Extra = one.Extra
+						}
+					}()
+				}
+				cwg.Wait()
+			}
+			close(churnDone)
+		}()
 		runHistories(a, rng.Fork(), w)
 		<-childDone
-		res.Violations = append(res.Violations, childRes.Violations...)
-		res.Notes = append(res.Notes, childRes.Notes...)
-		res.Extra = childRes.Extra
-		for k, v := range childRes.Distribution {
-			res.CountN(k, v)
+		<-churnDone
+		res.Extra = map[string]interface{}{}
+		for _, cr := range []*lib.Result{childRes, churnRes} {
+			res.Violations = append(res.Violations, cr.Violations...)
+			res.Notes = append(res.Notes, cr.Notes...)
+			for k, v := range cr.Extra {
+				res.Extra[k] = v
+			}
+			for k, v := range cr.Distribution {
+				res.CountN(k, v)
+			}
 		}
 	}
 
